@@ -221,18 +221,25 @@ def find_fn(toks, name, lo=0, hi=None, nth=0):
 
 
 def split_top(toks, sep):
-    """split token list at separator `sep` at bracket depth 0"""
-    out, cur, depth = [], [], 0
+    """split token list at separator `sep` at bracket depth 0.  Angle brackets are tracked when they
+    open right after a type-like identifier (capitalised) or `::` — generic arguments in casts/paths."""
+    out, cur, depth, angle = [], [], 0, 0
+    prev = None
     for t in toks:
         if t.k == "p" and t.s in OPEN:
             depth += 1
         elif t.k == "p" and t.s in CLOSE:
             depth -= 1
-        if depth == 0 and t.k == "p" and t.s == sep:
+        elif t.k == "p" and t.s == "<" and prev is not None and ((prev.k == "id" and prev.s[:1].isupper()) or prev.s == "::"):
+            angle += 1
+        elif t.k == "p" and t.s == ">" and angle > 0:
+            angle -= 1
+        if depth == 0 and angle == 0 and t.k == "p" and t.s == sep:
             out.append(cur)
             cur = []
         else:
             cur.append(t)
+        prev = t
     out.append(cur)
     return out
 
@@ -375,12 +382,66 @@ class ExprParser:
         e = self.postfix(self.primary())
         while self.peek() is not None and self.peek().s == "as":
             self.eat()
-            ty, j = until_top(self.t, self.i, {",", ";", ")", "]", "+", "-", "==", "!=", "<", ">", "<=", ">=", "&&", "||", "as", "..", "}"})
-            # a pointer type `*const T` / `*mut T` starts with '*': until_top stops at nothing for '*'
-            self.i = j
-            e = ("cast", e, compact(ty))
+            ty = self.parse_type()
+            e = ("cast", e, ty)
             e = self.postfix(e)
         return e
+
+    def parse_type(self):
+        """consume a type after `as`; returns its compact text"""
+        out = []
+        tok = self.peek()
+        if tok is None:
+            raise Unparsed("type expected")
+        if tok.s == "*":
+            out.append(self.eat().s)
+            if self.peek() is not None and self.peek().s in ("const", "mut"):
+                out.append(self.eat().s)
+            return "".join(out) + self.parse_type()
+        if tok.s == "&":
+            out.append(self.eat().s)
+            if self.peek() is not None and self.peek().k == "life":
+                out.append(self.eat().s)
+            if self.peek() is not None and self.peek().s == "mut":
+                out.append(self.eat().s)
+            return "".join(out) + self.parse_type()
+        if tok.s in ("[", "("):
+            c = match_close(self.t, self.i)
+            txt = compact(self.t[self.i : c + 1])
+            self.i = c + 1
+            return txt
+        if tok.s == "_":
+            self.eat()
+            return "_"
+        # path with generic arguments
+        while True:
+            tk = self.peek()
+            if tk is None:
+                break
+            if tk.k == "id":
+                out.append(self.eat().s)
+            elif tk.s == "<":
+                depth = 0
+                while True:
+                    t2 = self.eat()
+                    out.append(t2.s)
+                    if t2.s == "<":
+                        depth += 1
+                    elif t2.s == ">":
+                        depth -= 1
+                        if depth == 0:
+                            break
+            else:
+                break
+            if self.peek() is not None and self.peek().s == "::":
+                out.append(self.eat().s)
+                continue
+            if self.peek() is not None and self.peek().s == "<":
+                continue
+            break
+        if not out:
+            raise Unparsed("type expected at " + text(self.t[self.i : self.i + 3]))
+        return "".join(out)
 
     def path(self):
         parts = []
